@@ -89,8 +89,25 @@ def checkFfiCnfLine (kvs : List (String × String)) (rhs : String) : String := I
   | some m => if expand m false != g "cb" then return s!"FAIL MODEL compile_cnf: model {expand m false} through C {g "cb"}"
   return s!"ok nontrivial={if isNontrivial cb then 1 else 0}"
 
+/-- `kind=wide` lines: model counts on managers with 54–64 variables for diagrams with a closed
+form (disjunction, conjunction of the first k variables; one negative literal), modulo the
+counting prime -/
+def checkFfiWideLine (kvs : List (String × String)) (rhs : String) : String := Id.run do
+  let some n := (lookup kvs "n").bind parseNat? | return "FAIL PARSE n"
+  let some ks := (lookup kvs "ks").bind parseNatList | return "FAIL PARSE ks"
+  if rhs.startsWith "panic:" then return s!"FAIL SPEC a C call sequence panicked: {rhs}"
+  let okv := splitKV rhs
+  let some cmc := (lookup okv "cmc").bind parseNatList | return "FAIL PARSE cmc"
+  let some nmc := (lookup okv "nmc").bind parseNatList | return "FAIL PARSE nmc"
+  if cmc != nmc then return s!"FAIL SPEC robdd_model_count through C {cmc}, native counts {nmc}"
+  let P := Constants.u64largest
+  let want := ks.flatMap fun k => [(2 ^ n - 2 ^ (n - k)) % P, (2 ^ (n - k)) % P, (2 ^ (n - 1)) % P]
+  if cmc != want then return s!"FAIL SPEC model counts over {n} variables {cmc}, closed forms modulo the counting prime {want}"
+  return "ok nontrivial=1"
+
 def checkFfiLine (kvs : List (String × String)) (rhs : String) : String := Id.run do
   if lookup kvs "kind" == some "cnf" then return checkFfiCnfLine kvs rhs
+  if lookup kvs "kind" == some "wide" then return checkFfiWideLine kvs rhs
   let some n := (lookup kvs "n").bind parseNat? | return "FAIL PARSE n"
   let some opsS := lookup kvs "ops" | return "FAIL PARSE ops"
   let some ops := (opsS.splitOn "|").mapM parseOp | return "FAIL PARSE op"
